@@ -199,6 +199,35 @@ Fixpoint trun (c : cfg) (klen : Z) (t : tstate) (es : list tev) : tstate :=
 Definition rekey_round (a b n d : Z) : list tev :=
   [TIter (RKexInit a); TIter (RKexDone b n); TIter (RNewKeys d)].
 
+(* ---- vocabulary of the theorems ------------------------------------------------------------- *)
+Definition ic_ok (s : pstate) : Prop := ic s = 0 \/ ic s = 1 \/ ic s = 2.
+
+Definition counters_zero (s : pstate) : Prop :=
+  sb s = 0 /\ sp s = 0 /\ rb s = 0 /\ rp s = 0 /\ rbo s = 0 /\ rpo s = 0.
+
+(* ordinary events: sends, data packets, idle reads (no key-exchange message from the peer) *)
+Definition is_plain (e : tev) : bool :=
+  match e with TSend l => 0 <=? l | TIter RIdle => true | TIter (RData l) => 0 <=? l | _ => false end.
+Fixpoint ndata (es : list tev) : Z :=
+  match es with [] => 0 | TIter (RData _) :: r => 1 + ndata r | _ :: r => ndata r end.
+Fixpoint bdata (es : list tev) : Z :=
+  match es with [] => 0 | TIter (RData l) :: r => l + bdata r | _ :: r => bdata r end.
+
+(* transport between two exchanges, k KEXINITs sent so far *)
+Definition tfresh (k : Z) : tstate := mkT init false false true k.
+
+(* one round: traffic that crosses a threshold (and stays within the allowance), then an iteration
+   (idle or not is irrelevant: we use an idle one), then the peer's three kex messages *)
+Definition round_ok (c : cfg) (klen : Z) (x : list tev * (Z * Z * Z * Z)) : Prop :=
+  let '(tr, (a, b, n, d)) := x in
+  forallb is_plain tr = true /\
+  let t := trun c klen (tfresh 0) tr in
+  alive t = true /\ flag (pk t) = true /\
+  rpo (pk t) + 3 < OP c /\ rbo (pk t) + (a + b + d) < OB c /\ 0 <= a /\ 0 <= b /\ 0 <= d.
+
+Definition round_events (x : list tev * (Z * Z * Z * Z)) : list tev :=
+  let '(tr, (a, b, n, d)) := x in tr ++ TIter RIdle :: rekey_round a b n d.
+
 (* ---- canonical output for the correspondence run ------------------------------------------ *)
 Definition b2z (b : bool) : Z := if b then 1 else 0.
 
